@@ -231,7 +231,7 @@ func main() {
 
 	// ---------------- random cases
 	pool := []elacommon.Uint168{hashA, hashB, hashN, nearA1, nearA2, {}}
-	for i := 0; i < run.N(1500, 40000); i++ {
+	for i := 0; i < run.N(1500, 15000); i++ {
 		h := uint32(S - 5 + rng.Intn(12))
 		if rng.Chance(10) {
 			h = uint32(rng.PickU64(0, 1, 1<<32-1, 2256109, 2256110))
